@@ -101,7 +101,7 @@ func (h *Hist) genConfigs() {
 			o.AWS.LaunchTemplateID = "lt-1"
 			o.AWS.LaunchTemplateVersion = r.pick("1", "$Latest")
 			o.AWS.Lifecycle = r.pick("", "on-demand", "spot")
-			o.AWS.FleetInstanceReadyTimeout = r.pick("2s", "3s", "2s", "3s", "") // omitted: the documented default of one minute
+			o.AWS.FleetInstanceReadyTimeout = r.pick("2s", "3s", "") // omitted: the documented default of one minute
 			if r.chance(40) {
 				o.AWS.InstanceTypeOverrides = []string{"m5.large", "c5.large"}[:r.rng(1, 2)]
 			}
